@@ -303,7 +303,7 @@ pub fn c03_distances_sparse_n4_m5() {
     distances_sparse::<4, 5>();
 }
 
-// @verif prop=C03 tier=thorough fl=f2 role=one-step t=3600 mem=24
+// @verif prop=C03 tier=thorough fl=f2 role=one-step t=3600 mem=16
 #[cfg_attr(kani, kani::proof)]
 #[cfg_attr(kani, kani::unwind(6))]
 pub fn c03_one_step_n4_h4() {
@@ -666,7 +666,7 @@ pub fn c03_dist_base_n3() {
 }
 
 // Inductive step of DijkstraDist::next from ANY invariant state (3 vertices, <= 3 heap entries, weights < 2^62): covers histories of any length.
-// @verif prop=C03 tier=thorough fl=f2 feat=cap4 role=inductive/dist-step t=3600 mem=24
+// @verif prop=C03 tier=thorough fl=f2 feat=cap4 role=inductive/dist-step t=3600 mem=16
 #[cfg_attr(kani, kani::proof)]
 #[cfg_attr(kani, kani::unwind(6))]
 pub fn c03_dist_step_n3_h3() {
